@@ -2,10 +2,12 @@ package main
 
 // The consumer side of the message channel: sygma-core's REAL relayer.Relayer (Start -> `go
 // r.route(batch)`), real coreevm.EVMChain objects as destination chains (ReceiveMessage -> the real
-// message.MessageHandler -> a registered fake handler that reads the message the way the
-// repository's handlers do; Write -> a recording executor) and a recording message tracker.  It
-// runs inside the child process, so a panic on the route goroutine - which nothing recovers, as in
-// the relayer binary - ends the child and is observed by the parent as a crash.
+// message.MessageHandler -> downHandler, which hands the message to the REAL destination-side message
+// handlers of all three chain kinds (down.go) and records it; Write -> a recording executor) and a
+// recording message tracker.  It runs inside the child process, so a panic on the route goroutine -
+// which nothing recovers, as in the relayer binary - ends the child and is observed by the parent as
+// a crash; a panic of a real message handler is caught where it happens and reported with the message
+// (Obs.HPanics; in the relayer binary the process would be dead at that point).
 
 import (
 	"context"
@@ -36,6 +38,7 @@ type SentMsg struct {
 type rig struct {
 	mu     sync.Mutex
 	got    map[uint8][]recProp // per destination chain: nonce and content of the proposals written
+	hp     []handlerPanic      // real destination message handlers that panicked on a message (down.go)
 	others int                 // non-transfer proposals written
 	want   int                 // size of the batch being routed
 	failed int
@@ -53,13 +56,21 @@ type recProp struct {
 	Key   string
 }
 
-// transferHandler reads a transfer message like the repository's destination-side handlers do
-// (unchecked type assertion on Data).
-type transferHandler struct{}
+// downHandler is the transfer-message handler of every destination chain of the rig: the message goes
+// to the real message handlers of the three chain kinds (the destination domain of a deposit can be a
+// chain of any kind), then it is recorded as received.  A message on which a real handler panicked is
+// reported as failed (no proposal).
+type downHandler struct{ r *rig }
 
-func (transferHandler) HandleMessage(m *message.Message) (*proposal.Proposal, error) {
-	d := m.Data.(transfer.TransferMessageData)
+func (h downHandler) HandleMessage(m *message.Message) (*proposal.Proposal, error) {
+	d := m.Data.(transfer.TransferMessageData) // unchecked, like the repository's handlers
 	k, _ := contentKey(m)
+	if ps := realHandlers(m); len(ps) > 0 {
+		h.r.mu.Lock()
+		h.r.hp = append(h.r.hp, ps...)
+		h.r.mu.Unlock()
+		return nil, errHandlerPanic
+	}
 	return proposal.NewProposal(m.Source, m.Destination, recProp{Nonce: d.DepositNonce, Key: k}, m.ID, "transfer"), nil
 }
 
@@ -154,7 +165,7 @@ func getRig() *rig {
 	}
 	r := &rig{got: map[uint8][]recProp{}, done: make(chan struct{}, 1), in: make(chan []*message.Message)}
 	mh := message.NewMessageHandler()
-	mh.RegisterMessageHandler(transfer.TransferMessageType, transferHandler{})
+	mh.RegisterMessageHandler(transfer.TransferMessageType, downHandler{r})
 	mh.RegisterMessageHandler(retry.RetryMessageType, retryHandler{})
 	chains := map[uint8]relayer.RelayedChain{}
 	for id := 0; id < 256; id++ {
@@ -185,6 +196,7 @@ func pushed(r *rig, ch chan []*message.Message) [][]*message.Message {
 func (r *rig) routeAll(batches [][]*message.Message) (map[uint8][]recProp, bool) {
 	r.mu.Lock()
 	r.got = map[uint8][]recProp{}
+	r.hp = nil
 	r.mu.Unlock()
 	for _, b := range batches {
 		r.mu.Lock()
@@ -253,6 +265,10 @@ func consume(o *Obs, ch chan []*message.Message, nonce func(uint64) uint64, fpt 
 	if !ok {
 		o.Crashed, o.Stuck, o.Note = true, true, "Relayer.route did not finish"
 		return
+	}
+	o.HPanics = projectPanics(r.hp, nonce, fpt)
+	if len(o.HPanics) > 0 {
+		o.Note = "a destination message handler panicked on the route goroutine: " + r.hp[0].What
 	}
 	mapped := map[uint8][][2]uint64{}
 	for k, l := range got {
